@@ -71,7 +71,7 @@ func fieldName(T types.Type, idx int) string {
 		T = p.Elem().Underlying()
 	}
 	if st, ok := T.(*types.Struct); ok && idx < st.NumFields() {
-		return st.Field(idx).Name()
+		return fdisp(st.Field(idx))
 	}
 	return fmt.Sprintf("f%d", idx)
 }
@@ -254,7 +254,11 @@ func (t *termer) call(c *ssa.CallCommon, d int) string {
 	}
 	if f := c.StaticCallee(); f != nil && f.Signature.Recv() != nil && len(args) > 0 {
 		recv := strings.TrimPrefix(args[0], "&")
-		return recv + "." + originOf(f).Name() + "(" + strings.Join(args[1:], ", ") + ")"
+		mname := originOf(f).Name()
+		if obj, ok := originOf(f).Object().(*types.Func); ok {
+			mname = fndisp(obj)
+		}
+		return recv + "." + mname + "(" + strings.Join(args[1:], ", ") + ")"
 	}
 	return calleeName(c) + "(" + strings.Join(args, ", ") + ")"
 }
@@ -345,4 +349,12 @@ func loopIndex(v ssa.Value) (ssa.Value, bool) {
 		return nil, false
 	}
 	return cond.Y, true
+}
+
+// fdisp: the display (reference) name of a struct field.
+func fdisp(fv *types.Var) string {
+	if n, ok := dispField[fv.Origin()]; ok {
+		return n
+	}
+	return fv.Name()
 }
